@@ -1,6 +1,6 @@
 """C06 -- fixed vertices never move; free vertices solve the reduced problem."""
 from .. import optim_rules
-from ..assembly import SCENARIOS, assembly_obligation
+from ..assembly import SCENARIOS, SEQUENCES, assembly_obligation, sequence_obligation
 from ..algebra import run_tasks, record
 
 LEVEL = "other"
@@ -27,4 +27,8 @@ def run(run_, pkg, tier):
         key = "C06-ce/assembly/%s" % scn.name
         if run_.wants(key):
             tasks.append((key, "C06-ce-reduced-system", assembly_obligation(scn), "%s:%d" % (fn._gs_module, fn.lineno)))
+    for first, second in SEQUENCES:
+        key = "C06-ce/assembly-sequence/%s->%s" % (first.name, second.name)
+        if run_.wants(key):
+            tasks.append((key, "C06-ce-reduced-system-history-independent", sequence_obligation(first, second), "%s:%d" % (fn._gs_module, fn.lineno)))
     record(run_, tasks, run_tasks(pkg, tasks))
